@@ -41,6 +41,12 @@ Section AMap.
     | [] => [(k, v)]
     | (k', v') :: m' => if k =? k' then (k', v) :: m' else (k', v') :: aset k v m'
     end.
+  (** replace an existing binding; unchanged when the key is absent *)
+  Fixpoint arepl (k : Z) (v : V) (m : list (Z * V)) : list (Z * V) :=
+    match m with
+    | [] => []
+    | (k', v') :: m' => if k =? k' then (k', v) :: m' else (k', v') :: arepl k v m'
+    end.
   Fixpoint adel (k : Z) (m : list (Z * V)) : list (Z * V) :=
     match m with
     | [] => []
